@@ -15,6 +15,7 @@ from collections import Counter
 from . import pool
 
 VERIF = pool.VERIF
+EVDIR = os.environ.get("VERIF_EVIDENCE_DIR") or os.path.join(VERIF, "evidence")  # overridden only by the mutant self-test
 KNOWN_FILE = os.path.join(VERIF, "known_findings.json")
 
 
@@ -28,10 +29,10 @@ def load_known(pid):
 
 
 def write_evidence(pid, tier, seed, level, coverage, wall, violations, assumptions):
-    os.makedirs(os.path.join(VERIF, "evidence"), exist_ok=True)
+    os.makedirs(EVDIR, exist_ok=True)
     ev = {"property_id": pid, "tier": tier, "seed": seed, "level": level, "coverage": coverage,
           "assumptions": assumptions, "wall_s": round(wall, 2), "violations": violations}
-    path = os.path.join(VERIF, "evidence", pid + ".json")
+    path = os.path.join(EVDIR, pid + ".json")
     tmp = path + ".tmp"
     with open(tmp, "w") as f:
         json.dump(ev, f, indent=1, sort_keys=True)
@@ -121,7 +122,7 @@ def main(argv=None):
         else:
             new.append(v)
 
-    os.makedirs(os.path.join(VERIF, "evidence", "replay"), exist_ok=True)
+    os.makedirs(os.path.join(EVDIR, "replay"), exist_ok=True)
     seen = set()
     lines = []
     for v in new:
@@ -132,7 +133,7 @@ def main(argv=None):
         seen.add(sha)
         if len(seen) > 10:
             break
-        path = os.path.join(VERIF, "evidence", "replay", "%s-%s.json" % (pid, sha))
+        path = os.path.join(EVDIR, "replay", "%s-%s.json" % (pid, sha))
         with open(path, "w") as f:
             json.dump(v.get("case"), f, indent=1, sort_keys=True, default=repr)
         lines.append("VIOLATION property=%s replay=%s" % (pid, path))
